@@ -8,3 +8,7 @@ import TsVerif.C12.Props
 #print axioms TsVerif.C12.countReachKids_le
 #print axioms TsVerif.C12.marked_fanout_bound
 #print axioms TsVerif.C12.rebuilt_kid_reaches
+#print axioms TsVerif.C12.level_reach_bound
+#print axioms TsVerif.C12.reach_total_bound
+#print axioms TsVerif.C12.rebuilt_in_level
+#print axioms TsVerif.C12.marked_total_bound_partial
